@@ -172,6 +172,56 @@ def check_design(ctx: Ctx, d: dict, r: dict):
             check_rows(ctx, d, t, n, fr, tb, G, cds, rows)
 
 
+def leak_edge(rng, d: dict) -> bool:
+    """Make a coding region-2 with an snv mutator start or end at the targeton edge in the middle of a codon, and give a guide
+    of that targeton a PAM edit on the base(s) of the same codon just outside the targeton.  The edit is not part of this
+    targeton's template (the tool says so in a warning), so the codon is completed from the unedited genome."""
+    exons = gen.exons_of(d)
+    if not exons:
+        return False
+    ref = d['ref'].upper()
+    ts = list(d['targetons'])
+    rng.shuffle(ts)
+    for t in ts:
+        a, b = t['r2_start'], t['r2_end']
+        if gen.region_class(exons, a, b) != 'cds' or 'snv' not in cc.parse_group(t['action'][1]):
+            continue
+        for side in rng.sample(['start', 'end'], 2):
+            cands = []
+            for e in (range(a, min(a + 3, b + 1)) if side == 'start' else range(b, max(b - 3, a - 1), -1)):
+                tc = gen.true_codon_positions(d, e)
+                if not tc or None in tc:
+                    continue
+                out = [q for q in tc if (q < e if side == 'start' else q > e)]
+                if out and all(2 <= q <= len(ref) - 1 for q in out):
+                    cands.append((e, out, tc))
+            if not cands:
+                continue
+            e, out, tc = rng.choice(cands)
+            new = dict(t)
+            if side == 'start':
+                new.update(ref_start=e, r2_start=e, ext=[0, t['ext'][1]], action=['', t['action'][1], t['action'][2]])
+            else:
+                new.update(ref_end=e, r2_end=e, ext=[t['ext'][0], 0], action=[t['action'][0], t['action'][1], ''])
+            if new['ref_end'] - new['ref_start'] < 3 or any(x is not t and (x['ref_start'], x['ref_end']) == (new['ref_start'], new['ref_end']) for x in d['targetons']):
+                continue
+            others = [x for x in d['targetons'] if x is not t]
+            q = rng.choice(out)
+            if any(x['ref_start'] <= q <= x['ref_end'] for x in others):
+                continue
+            # one edit in that codon, and none left outside the new range that used to be inside
+            pam = [v for v in d.get('pam') or [] if v['pos'] not in tc]
+            sg = (t['sgrna'] or ['sg1'])[0]
+            pam.append({'pos': q, 'ref': ref[q - 1], 'alt': rng.choice([c for c in NTS if c != ref[q - 1]]), 'sgrna': sg})
+            t.clear()
+            t.update(new)
+            t['sgrna'] = sorted(set(t['sgrna']) | {sg})
+            d['pam'] = pam
+            d.pop('vcfs', None)
+            return True
+    return False
+
+
 def files(ctx: Ctx):
     n = ctx.n(100, 1200)
     focus = {'p_bg': 0.0, 'p_custom': 0.4, 'p_pam': 0.8, 'p_table': 0.3, 'p_gtf': 1.0, 'n_pam': [1, 2, 3],
@@ -181,7 +231,10 @@ def files(ctx: Ctx):
         f = dict(focus, n_exons=ctx.rng.choice([1, 2, 3, 3, 4]), exon_lens=ctx.rng.choice([[4, 5, 6, 7, 9, 12, 17, 21, 30, 31, 32, 45], [2, 3, 4, 5, 7, 8]]))
         if i % 4 == 0:
             f.update(p_bg=1.0, bg_kinds=['snv'], p_mask=0.0)
-        designs.append(gen.gen_sge(ctx.rng, f))
+        d = gen.gen_sge(ctx.rng, f)
+        if i % 4 in (1, 3) and leak_edge(ctx.rng, d):
+            ctx.count('designs_with_guide_edit_just_outside_the_targeton')
+        designs.append(d)
     for _ in range(n // 2):
         d = gen.gen_cdna(ctx.rng, {'p_table': 0.2})
         annot = {a[0]: a for a in d.get('annot') or [] if a[3] != ''}
